@@ -269,7 +269,7 @@ impl WorldCfg {
 // ---------------------------------------------------------------------------------------------
 // The deterministic reply function of the raw workload
 
-pub const SHAPES: usize = 7;
+pub const SHAPES: usize = 8;
 
 /// Reply to `vreq K N SHAPE [I]`: a pure function of the request id, recomputable by checkers.
 pub fn vreq_reply(k: u64, n: u64, i: u64, shape: u64) -> AFrame {
@@ -310,10 +310,17 @@ pub fn vreq_reply(k: u64, n: u64, i: u64, shape: u64) -> AFrame {
             let opts: [&[u8]; 4] = [b"OK\n", b"list_OK\n", b"ACK [5@0] {} x\n", b"changed: player\nOK\n"];
             binary = Some((1, opts[(r.next_u64() % 4) as usize].to_vec()));
         }
-        _ => {
+        6 => {
             // looks like an idle reply
             fields.push(("changed".to_string(), "player".to_string()));
             fields.push(("changed".to_string(), "mixer".to_string()));
+        }
+        _ => {
+            // very many DISTINCT field names (61-65 besides `id`, depending on the call's sequence number): whatever a
+            // connection remembers about field names is pushed across round limits such as 64
+            for j in 0..61 + (n % 5) as usize {
+                fields.push((format!("key_{}{}", (b'a' + (j / 26) as u8) as char, (b'a' + (j % 26) as u8) as char), format!("{}", j)));
+            }
         }
     }
     AFrame { fields, binary }
